@@ -19,7 +19,7 @@ func init() { Registry["C18"] = C18 }
 func C18(p *ir.Program, r *report.R) {
 	c := C{p, r}
 	r.Floor = 30
-	r.Explain = "Decided (authentication + bounds only): MakeSecretConnection returns a connection only after the remote key is non-nil and its signature over the challenge verified, where (provenance) the challenge is genChallenge of the sorted pair of THIS handshake's ephemeral keys, the key and signature are the fields of the message shareAuthSignature returned, the local side signs that same challenge, and sc.remPubKey has no other writer; in SecretConnection.Read the frame buffer allocation and the chunk slice are dominated by their bounds, the header version/type test precedes any use, nonces advance exactly after a successful Open / every Seal; Write and Read agree on the frame header (leading byte, 4-byte big-endian length at the same offset); Channel.recvPacketMsg appends only within the channel capacity and returns a message only on EOF, resetting the buffer; the connection decodes packets with a non-zero size limit. ADDED after seeded-change testing: sc.recvBuffer only holds memory allocated for the frame (freshness through snappy.Decode(nil,..)/make; pooled buffers rejected); c.bufConnWriter / c.bufConnReader are used only by methods that run on the send / receive goroutine (greatest fixed point over plain calls; each routine started exactly once in OnStart) ; Channel.nextPacketMsg sets EOF exactly under len(rest) <= max (clearing the buffer) and sends a non-final packet only under len(rest) > max; SecretConnection.Read reads frame header and body with io.ReadFull only. Rounds 4-5: a fresh ephemeral key pair on every handshake; the receive limit keeps its slack for two-byte channel ids. NOT decided: byte-stream identity and per-channel ordering over all chunkings and interleavings (value/schedule properties), flow control. Observation outside the statement: SecretConnection.RemotePubKey() has no caller — the authenticated key is not compared with the node id the switch uses."
+	r.Explain = "Decided (authentication + bounds only): MakeSecretConnection returns a connection only after the remote key is non-nil and its signature over the challenge verified, where (provenance) the challenge is genChallenge of the sorted pair of THIS handshake's ephemeral keys, the key and signature are the fields of the message shareAuthSignature returned, the local side signs that same challenge, and sc.remPubKey has no other writer; in SecretConnection.Read the frame buffer allocation and the chunk slice are dominated by their bounds, the header version/type test precedes any use, nonces advance exactly after a successful Open / every Seal; Write and Read agree on the frame header (leading byte, 4-byte big-endian length at the same offset); Channel.recvPacketMsg appends only within the channel capacity and returns a message only on EOF, resetting the buffer; the connection decodes packets with a non-zero size limit. ADDED after seeded-change testing: sc.recvBuffer only holds memory allocated for the frame (freshness through snappy.Decode(nil,..)/make; pooled buffers rejected); c.bufConnWriter / c.bufConnReader are used only by methods that run on the send / receive goroutine (greatest fixed point over plain calls; each routine started exactly once in OnStart) ; Channel.nextPacketMsg sets EOF exactly under len(rest) <= max (clearing the buffer) and sends a non-final packet only under len(rest) > max; SecretConnection.Read reads frame header and body with io.ReadFull only. Rounds 4-5: a fresh ephemeral key pair on every handshake; the receive limit keeps its slack for two-byte channel ids. Round 7: sender and receiver cut packets by the same configured size. NOT decided: byte-stream identity and per-channel ordering over all chunkings and interleavings (value/schedule properties), flow control. Observation outside the statement: SecretConnection.RemotePubKey() has no caller — the authenticated key is not compared with the node id the switch uses."
 	r.Trusted = []string{"crypto.PubKey.VerifyBytes, nacl/secretbox, curve25519", "golang/snappy"}
 
 	// ---- handshake ---------------------------------------------------------------
